@@ -227,15 +227,26 @@ def run_rfcomm(case):
                 sim.call(d0.write, greet)
                 sim.loop.settle(vt_budget=2.0)
                 sim.probe('data_arrived_before_the_sink_was_attached')
-            d1.sink = lambda data, i=i: rx[i][1].extend(data)
+            if case.get('late_sink') and deferred is not None:
+                # (at the start several data links are opened and written to before any of the applications attaches its sink;
+                # the sinks are then attached in the opposite order: each gets what arrived on its own link, nothing else)
+                deferred.append((i, d1))
+            else:
+                d1.sink = lambda data, i=i: rx[i][1].extend(data)
             for side, d in enumerate((d0, d1)):
                 if d.state != d.State.CONNECTED:
                     sim.violation_once('state', f'rfcomm:dlc-not-connected-after-open:{"initiator" if side == 0 else "acceptor"}', d.state.name)
             return True
 
+        deferred = []
         for i in range(ndlc):
             if not open_dlc(i):
                 return result(sim, nontrivial=False)
+        for i, d1_ in reversed(deferred):
+            d1_.sink = lambda data, i=i: rx[i][1].extend(data)
+        if len(deferred) > 1:
+            sim.probe('several_links_held_data_before_their_sinks_were_attached')
+        deferred = None
         tag = 0
         reopened = 0
 
